@@ -206,14 +206,15 @@ type serveRun struct {
 }
 
 type lifeCase struct {
-	svc    *varlink.Service
-	id     string
-	lsns   []*ctlListener
-	conns  []*lifeConn
-	serve  *serveRun
-	hookMu sync.Mutex
-	hookA  bool
-	hookD  bool
+	svc      *varlink.Service
+	id       string
+	lsns     []*ctlListener
+	conns    []*lifeConn
+	serve    *serveRun
+	hookMu   sync.Mutex
+	lastAddr string
+	hookA    bool
+	hookD    bool
 	// hookE: the accept deadline expires right behind the next connection the listener hands out — the
 	// following Accept returns the timeout at once, before anything else gets to run (the case runs on one P)
 	hookE     bool
@@ -363,7 +364,23 @@ func (h *lifeCase) snapshot(l *Line) {
 
 func (h *lifeCase) freshAddr() string {
 	h.binds++
-	return fmt.Sprintf("unix:@verif-life-%d-%s-%d", os.Getpid(), h.id, h.binds)
+	h.lastAddr = fmt.Sprintf("unix:@verif-life-%d-%s-%d", os.Getpid(), h.id, h.binds)
+	return h.lastAddr
+}
+
+// bindAddr: the address for a Bind / second Listen. While the service is running the call is refused whatever the
+// address says — so it is given the very string the service is bound to (the case in which "binding again" could
+// be mistaken for a no-op); otherwise a fresh one.
+func (h *lifeCase) bindAddr() string {
+	if running, _, _, _ := h.svc.VerifState(); running {
+		if h.sock && h.sockAddr != "" {
+			return h.sockAddr
+		}
+		if h.lastAddr != "" {
+			return h.lastAddr
+		}
+	}
+	return h.freshAddr()
 }
 
 var (
@@ -423,7 +440,7 @@ func (h *lifeCase) event(tok string) string {
 		if h.sock {
 			return "unknown"
 		}
-		err := h.svc.Bind(context.Background(), h.freshAddr())
+		err := h.svc.Bind(context.Background(), h.bindAddr())
 		if err != nil {
 			if strings.Contains(err.Error(), "already running") {
 				return "running"
@@ -472,7 +489,8 @@ func (h *lifeCase) event(tok string) string {
 			return "skip"
 		}
 		res := make(chan error, 1)
-		go func() { res <- h.svc.Listen(context.Background(), h.freshAddr(), 0) }()
+		addrL := h.bindAddr()
+		go func() { res <- h.svc.Listen(context.Background(), addrL, 0) }()
 		h.waitQuiet()
 		select {
 		case err := <-res:
